@@ -65,7 +65,7 @@ impl<'a> Which<'a> {
             Which::Bm(_) => 3,
             Which::Core(d) => if d.seekable { 4 } else { 3 },
             Which::Stream(d) => if d.seekable { 4 } else { 2 },
-            Which::Buf(_) => 3,
+            Which::Buf(_) => 5,
         }
     }
     pub fn op_name(&self, cfg: &Cfg, op: usize) -> String {
@@ -84,7 +84,9 @@ impl<'a> Which<'a> {
             (Which::Stream(_), _) => "current_pos::<u128>()".into(),
             (Which::Buf(_), 0) => "process(1)".into(),
             (Which::Buf(_), 1) => format!("process({})", cfg.bs + 1),
-            (Which::Buf(_), _) => "get_state()".into(),
+            (Which::Buf(_), 2) => "get_state()".into(),
+            (Which::Buf(_), 3) => format!("process({})", cfg.bs - 1),
+            (Which::Buf(_), _) => format!("process({})", cfg.bs / 2 + 1),
         }
     }
 }
@@ -182,10 +184,20 @@ impl Obj {
                     b.process(&mut o);
                     o
                 }
-                _ => {
+                2 => {
                     let (blk, p) = b.get_state();
                     let mut o = blk;
                     o.push(p as u8);
+                    o
+                }
+                3 => {
+                    let mut o = data[..bs - 1].to_vec();
+                    b.process(&mut o);
+                    o
+                }
+                _ => {
+                    let mut o = data[..bs / 2 + 1].to_vec();
+                    b.process(&mut o);
                     o
                 }
             },
